@@ -586,6 +586,10 @@ package gohlslib
 //@   ensures [C03] local (result == nil && s.isLeading) ==> forall(j, (0 <= j && j < len(s.segments)) ==> s.targetDuration >= round(real(s.segments[j].getDuration()) / 1000000000.0))
 //@   ensures [C03] local result == nil ==> ((s.variant != MuxerVariantMPEGTS ==> (asF(s.nextSegment).startNTP == nextNTP && asF(s.nextSegment).startDTS == nextDTS))
 //@        && (s.variant == MuxerVariantMPEGTS ==> (asM(s.nextSegment).startNTP == nextNTP && asM(s.nextSegment).startDTS == nextDTS)))
+// C07: a segment whose rotation fails is not orphaned: it is still the open segment, or listed (Close will release it), or has been closed
+//@   ensures [C07] local (result != nil && old(s.nextSegment) != nil) ==> (s.nextSegment == old(s.nextSegment) || (len(s.segments) >= 1 && s.segments[len(s.segments) - 1] == old(s.nextSegment))
+//@        || (calls("muxerSegmentFMP4.close") >= 1 && callarg("muxerSegmentFMP4.close", 0, 0) == old(s.nextSegment))
+//@        || (calls("muxerSegmentMPEGTS.close") >= 1 && callarg("muxerSegmentMPEGTS.close", 0, 0) == old(s.nextSegment)))
 //@   ensures [C05,C18] local (result == nil && s.segmentDeleteCount == old(s.segmentDeleteCount) + 1 && old(len(s.segments)) >= 1) ==>
 //@        (calls("muxerServer.unregisterPath") >= 1 && (callarg("muxerServer.unregisterPath", calls("muxerServer.unregisterPath") - 1, 1) == old(s.segments[0]).getPath()
 //@         || callarg("muxerServer.unregisterPath", 0, 1) == old(s.segments[0]).getPath()))
